@@ -1,5 +1,5 @@
 (* C10/Witness.v — non-vacuity of the hypotheses of Properties.v and concrete runs (vm_compute). *)
-From Verif Require Import Common.Base C10.Model C10.Proofs1 C10.Proofs2 C10.Proofs3 C10.Proofs4.
+From Verif Require Import Common.Base C10.Model C10.Proofs1 C10.Proofs2 C10.Proofs3 C10.Proofs4 C10.Proofs5.
 
 (* two pipelines joined by a connector:
      receiver 0 -> cap 10 -> processor 1 -> fanout 11 -> exporter 2, connector 3
@@ -98,3 +98,21 @@ Example sc_script :
   sc_run 0 true true sc0 [false; true; true; false; true] =
   ([IStop 0; IStart 0], [true; true; false; false; false]).
 Proof. vm_compute. reflexivity. Qed.
+
+(* context scenario: the receiver 0 (first to be shut down) ends the context during its Shutdown
+   (a slow drain eating the deadline); processor 1 and exporter 2 are context-sensitive and answer
+   ctx.Err() — they are reported, and everything downstream is still shut down *)
+Definition cx_drain : cx :=
+  {| d0_start := false; d0_stop := false; xc_start := none; cc_start := none; xc_stop := none;
+     cc_stop := fun n => Nat.eqb n 0; x_sens := none; c_sens := fun n => Nat.eqb n 1 || Nat.eqb n 2 |}.
+Example run_cx_drain :
+  collector_run_cx g1 x1 o1 nofail cx_drain =
+  ([XStart 0; XStart 1; XStart 2; NCfg 1; CStart 4; CStart 3; CStart 2; CStart 1; CStart 0; NReady 2;
+    NNotReady 2; CStop 0; CStop 1; CStop 3; CStop 4; CStop 2; XStop 2; XStop 1; XStop 0],
+   [ErrCStop 1; ErrCStop 2]).
+Proof. vm_compute. reflexivity. Qed.
+
+(* the hypothesis of run_cx_live is satisfiable *)
+Example live_cx_example : live_cx {| d0_start := false; d0_stop := false; xc_start := none; cc_start := none;
+                                    xc_stop := none; cc_stop := none; x_sens := all; c_sens := all |}.
+Proof. repeat split. Qed.
